@@ -61,13 +61,14 @@ class Ob:
     """One discharged (or attempted) obligation, produced by workers (must be picklable/jsonable)."""
 
     def __init__(self, name, verdict, secs=0.0, cfg=None, detail=None, kind="obligation", model=None, key=None,
-                 queries=1, trivial=False, replayed=None, what=None):
+                 queries=1, trivial=False, replayed=None, what=None, optional=False):
         # verdict: 'unsat' (holds) | 'sat' (counterexample) | 'unknown' | 'error'
         # kind: 'obligation' | 'vacuity' (expects sat) | 'unwind' | 'selfcheck' | 'expected_sat'
         self.name, self.verdict, self.secs, self.cfg = name, verdict, float(secs), cfg
         self.detail, self.kind, self.model, self.key = detail, kind, model, key
         self.queries, self.trivial = queries, trivial
         self.replayed, self.what = replayed, what  # for verdict 'sat': did the model reproduce on the real code?
+        self.optional = optional  # an 'unknown' on an optional obligation is reported and dropped from the claim instead of failing the check
 
     def to_dict(self):
         return jsonable(self.__dict__)
@@ -115,7 +116,10 @@ class Report:
                 self.harness_errors.append(f"vacuity/reachability twin not sat: {d['name']} cfg={d.get('cfg')} ({v})")
         elif k in ("obligation", "unwind", "selfcheck"):
             if v == "unknown":
-                self.inconclusive.append(f"{d['name']} cfg={d.get('cfg')}")
+                if d.get("optional"):
+                    self.notes.append(f"dropped from the claim (solver budget exhausted, optional obligation): {d['name']} cfg={d.get('cfg')}")
+                else:
+                    self.inconclusive.append(f"{d['name']} cfg={d.get('cfg')}")
             elif v == "sat":
                 if d.get("replayed") is True:
                     self.validated += 1
